@@ -96,6 +96,8 @@ def _plans(ftype, cid, tier):
         # sources do not enter these likelihoods: constraints x points only (plus one declared source that must not matter)
         for c in CONS:
             plans.append(((), None, c))
+            if c:
+                plans.append(((), None, c, True))
         if kinds and fam == "chi2":
             plans.append((("y-abs",), None, ()))
         return plans
@@ -119,6 +121,8 @@ def _plans(ftype, cid, tier):
     for sl in firsts:
         for c in CONS[1:]:
             plans.append((sl, None, c))
+            if sl == firsts[0]:
+                plans.append((sl, None, c, True))
     return plans
 
 
@@ -131,10 +135,14 @@ def _pd(M):
 
 
 def run_one(res, ftype, model, cid, v, plan, collect=None):
-    sl, dis, cons = plan
+    sl, dis, cons = plan[:3]
+    preread = len(plan) > 3 and plan[3]
     ops = [("add", k, "e%d" % i) for i, k in enumerate(sl)]
     if dis is not None:
         ops.append(("dis", "e%d" % dis))
+    if preread:
+        # the cost is read once before the constraints are declared: no declared constraint may be ignored afterwards
+        ops.append(("read", "cost_function_value"))
     ops += [("con", c) for c in cons]
     hist = [dict(ftype=ftype, model=model, cost=cid, v=v)]
     try:
@@ -145,7 +153,10 @@ def run_one(res, ftype, model, cid, v, plan, collect=None):
     try:
         for op in ops:
             hist.append(list(op))
-            w.apply(op)
+            if op[0] == "read":
+                w.observe(op[1])
+            else:
+                w.apply(op)
             res.transitions += 1
     except Exception as e:  # noqa: BLE001
         res.executions += 1
@@ -181,21 +192,21 @@ def run_one(res, ftype, model, cid, v, plan, collect=None):
         for obs, exp in checks:
             act = w.observe(obs)
             res.evaluations += 1
-            res.observe((ftype, cid, model, sl, dis, cons, pid, obs, act if not isinstance(act, float) else round(act, 9)))
+            res.observe((ftype, cid, model, sl, dis, cons, preread, pid, obs, act if not isinstance(act, float) else round(act, 9)))
             ok = close_scaled(act, exp, rtol=1e-9)
             res.outcomes[(ftype, ref.cost_family(cid)[0] if ftype != "unbinned" else "nll-unbinned", obs, "ok" if ok else "MISMATCH")] += 1
             if not ok:
                 mode = "wrong-value" if not isinstance(act, tuple) else "exception:" + act[1]
                 viol.append(_viol(res, ftype, model, cid, hist, obs, exp, act, mode))
-        res.state((ftype, model, cid, sl, dis, cons, pid, v))
+        res.state((ftype, model, cid, sl, dis, cons, preread, pid, v))
         if w.n_enabled() > 0 or cons:
-            res.nontriv((ftype, model, cid, sl, dis, cons, pid, v))
+            res.nontriv((ftype, model, cid, sl, dis, cons, preread, pid, v))
     res.executions += 1
     return viol
 
 
 def _viol(res, ftype, model, cid, hist, obs, exp, act, mode):
-    ops = ";".join(":".join(str(x) for x in h[:2]) if h[0] in ("add", "con", "set") else ":".join(str(x) for x in h) for h in hist[1:])
+    ops = ";".join(":".join(str(x) for x in h[:2]) if h[0] in ("add", "con", "set", "read") else ":".join(str(x) for x in h) for h in hist[1:])
     sig = "%s|%s|%s|%s" % (ftype, cid, model, ops)
     return res.violation(sig, hist, obs, exp, act, mode)
 
@@ -222,6 +233,9 @@ def replay(history):
     for op in history[1:]:
         op = tuple(op)
         try:
+            if op[0] == "read":
+                w.observe(op[1])
+                continue
             w.apply(op)
         except Exception as e:  # noqa: BLE001
             return [dict(observable="op:" + op[0], expected="no exception", actual=type(e).__name__, mode="exception:" + type(e).__name__)]
